@@ -100,6 +100,11 @@ def gen_virtual(rng):
             'pending': rng.choice(['', '', 'ab', 'q' + MATCH.decode() + 'r']) if rng.random() < 0.3 else '',
             'eintr': sorted(round(rng.uniform(0.001, base * 1.2), 6) for _ in range(rng.choice([0, 0, 1, 3, 8]))),
             'exit_at': None}
+    if Teff is not None and Teff > 0 and rng.random() < 0.2:
+        # signals arriving in the last microsecond of the wait: when the interrupted wait is resumed its remaining
+        # time has run out (the retry must come back empty-handed, not fail on a negative timeout)
+        case['eintr'] = sorted(case['eintr'] + [round(Teff + k * 2.5e-7, 9) for k in range(-14, 15)])
+        case['eintr_at_deadline'] = True
     if kind in ('flood-full-reads', 'late-full-burst', 'full-reads-trickle'):
         case['maxread'] = SMALL_MAXREAD
         if kind == 'flood-full-reads' and (Teff is None or Teff > 0.05):
@@ -415,6 +420,32 @@ def real_case(case, acc, confirm=True):
                 c.proc.wait()
                 c.proc.stdin.close()
                 c.proc.stdout.close()
+    elif kind in ('pty-partial-char', 'popen-partial-char'):
+        # the first byte of a 4-byte character arrives late in the wait and nothing follows: no text was received,
+        # the deadline stands
+        code = ('import sys,os,time\nos.write(1, b"ready")\ntime.sleep(%f)\nos.write(1, b"\\xf0")\ntime.sleep(60)\n' % (0.85 * T))
+        if kind == 'pty-partial-char':
+            c = pexpect.spawn(sys.executable, ['-S', '-c', code], timeout=T, encoding='utf-8', use_poll=case.get('poll', False))
+        else:
+            from pexpect.popen_spawn import PopenSpawn
+            c = PopenSpawn([sys.executable, '-S', '-c', code], timeout=T, encoding='utf-8')
+        try:
+            c.expect_exact('ready', timeout=20)
+            r, e, dt = timed(lambda: c.expect_exact('never', timeout=case['Targ']))
+            if type(e) is not TIMEOUT:
+                bad.append(('real-foreign-outcome', '%s: %r %r' % (kind, r, e)))
+            elif dt > T + 2.0:
+                bad.append(('real-deadline-overrun', '%s T=%r, first byte of a character after %.2f s: took %.2f s' % (kind, T, 0.85 * T, dt)))
+            elif dt < T - 0.02:
+                bad.append(('real-early-timeout', '%s T=%r: TIMEOUT after %.3f s' % (kind, T, dt)))
+        finally:
+            if kind == 'pty-partial-char':
+                c.close(force=True)
+            else:
+                c.proc.kill()
+                c.proc.wait()
+                c.proc.stdin.close()
+                c.proc.stdout.close()
     elif kind == 'socket-silent':
         import socket
         from pexpect import socket_pexpect
@@ -502,6 +533,8 @@ def real_cases(spec, acc):
         cases.append({'real': 'waitnoecho', 'T': 5, 'Targ': 5, 'off_after': 0.25})
         cases.append({'real': 'hangup-alive', 'T': T, 'Targ': T, 'life': 3.0, 'fastpath': True})
         cases.append({'real': 'hangup-alive', 'T': T, 'Targ': T, 'life': 3.0, 'fastpath': False})
+    cases.append({'real': 'popen-partial-char', 'T': 3.0, 'Targ': 3.0})
+    cases.append({'real': 'pty-partial-char', 'T': 3.0, 'Targ': -1})
     mine = [c for i, c in enumerate(cases) if i % spec['parts'] == spec['part']]
     for case in mine:
         acc.case()
@@ -543,8 +576,23 @@ def run_shard(spec, acc):
     m = spec['mode']
     if m == 'virtual':
         rng = rng_for(spec['seed'], spec['shard'], 5)
+        blocked = {}
         for _ in range(spec['n']):
-            virtual_case(gen_virtual(rng), acc)
+            case = gen_virtual(rng)
+            if blocked.get(case['transport'], 0) >= 2:
+                continue
+            t0 = time.time()
+            virtual_case(case, acc)
+            if time.time() - t0 > 3.0:
+                # a call on virtual time that takes seconds of real time waits on something the virtual world does
+                # not control (say, a blocking queue wait): the virtual schedules say nothing about such code - the
+                # real-time companions have to decide for this transport
+                blocked[case['transport']] = blocked.get(case['transport'], 0) + 1
+                if blocked[case['transport']] == 2:
+                    acc.inconc('virtual schedules do not apply to the %s transport as it is written now (calls block in '
+                               'real time); only the real-time companions decide for it' % case['transport'])
+            if acc.too_many():
+                break
     elif m == 'waitnoecho':
         for T in (-1, None, 0, 0.3, 1.0, 0.05):
             for off in (None, 0, 0.15, 0.25, 0.5, 2.0, 9.0):
